@@ -8,7 +8,7 @@
    section; a termination raised by a handler is forwarded), [old_order] the code before eafa506,
    [old_handlers] the code before the handler repair (handlers run inside the locked section). *)
 From Coq Require Import List Bool Arith.
-From GV Require Import Thread.Proto Thread.Inv Thread.Preserve Thread.Refute.
+From GV Require Import Thread.Proto Thread.Inv Thread.Preserve Thread.Refute Thread.Full Thread.NoDeadlock.
 Import ListNotations.
 
 (* One goroutine at a time: at most one goroutine is active (not blocked in a receive, not
@@ -36,6 +36,40 @@ Theorem C09_baton_unique_old_order_refuted :
     accessing (pc s g) = true /\ accessing (pc s h) = true /\ active (pc s h) = false.
 Proof. exact baton_unique_old_order_refuted. Qed.
 Print Assumptions C09_baton_unique_old_order_refuted.
+
+(* NO DEADLOCK on the code as it stands: in every reachable state of the interleaving semantics (any
+   number of threads, any schedule, handlers of end resuming/closing/creating coroutines or trying
+   to yield) some action is enabled unless the main thread has finished: control always comes back. *)
+Theorem C09_no_deadlock : forall s, reachable current s -> main_done s = false ->
+  exists a s', step current s a = Some s'.
+Proof. exact (fun s => no_deadlock current s eq_refl). Qed.
+Print Assumptions C09_no_deadlock.
+
+(* ... for every configuration that runs the handlers before the locked section *)
+Theorem C09_no_deadlock_general : forall cf s, handlers_locked cf = false -> reachable cf s ->
+  main_done s = false -> exists a s', step cf s a = Some s'.
+Proof. exact no_deadlock. Qed.
+Print Assumptions C09_no_deadlock_general.
+
+(* No Go panic / fatal error is reachable: every Unlock is of a held mutex, the status checks of
+   Resume/Close/Yield/end never fail, nobody sends on a closed channel, end always has a caller. *)
+Theorem C09_no_panic : forall s h, reachable current s -> pc s h <> Panicked.
+Proof. exact (fun s h => no_panic current s h eq_refl). Qed.
+Print Assumptions C09_no_panic.
+
+(* Only a Suspended thread is ever resumed/closed: at the status write R4 the target is still
+   Suspended and blocked in its receive (the test at R2 is stable), and is not the resumer itself. *)
+Theorem C09_resume_only_suspended : forall s g k t v, reachable current s -> pc s g = R4 k t v ->
+  status (th s t) = Suspended /\ waiting (pc s t) = true /\ t <> g.
+Proof. exact (fun s g k t v => resume_only_suspended current s g k t v eq_refl). Qed.
+Print Assumptions C09_resume_only_suspended.
+
+(* A mutex is held exactly by the goroutine whose pc says so: by the active goroutine, or by a
+   goroutine in the (non-blocking) tail of end. *)
+Theorem C09_mutex_table : forall s u h, reachable current s ->
+  (mux (th s u) = Some h <-> holds2 (pc s h) h u = true).
+Proof. exact (fun s u h => mutex_table current s u h eq_refl). Qed.
+Print Assumptions C09_mutex_table.
 
 (* Regression witness: with the handlers run inside the locked section of end (the code before the
    handler repair) a reachable state has main not finished, nobody panicked and no action at all
